@@ -161,6 +161,12 @@ package null
 //@   ensures[C19,C04,C05] err == nil ==> 0 <= n && n <= len(data)
 //@   ensures[C19,C09] err == nil ==> loadbool(ptr + 16)
 
+//@ # the interned variant describes itself exactly as the plain null.String codec does (explicit presence included)
+//@ func null.*internedNullStringCodec.Descriptor
+//@   safety C14
+//@   assigns nothing
+//@   ensures[C14,C09] result.Type == 4 && result.ExplicitPresence && result.Index == 0 && len(result.Name) == 0 && len(result.TypeName) == 0 && len(result.Elements) == 0 && result.LogicalType == 0
+
 //@ func null.*internedNullStringCodec.Omit
 //@   safety C19
 //@   assigns nothing
